@@ -270,7 +270,7 @@ func rewrite(pkg, path string, src []byte) ([]byte, bool) {
 		ast.Inspect(file, func(n ast.Node) bool {
 			if s, ok := n.(*ast.SelectorExpr); ok {
 				if id, ok := s.X.(*ast.Ident); ok && id.Name == "sync" && id.Obj == nil {
-					if s.Sel.Name != "Mutex" && s.Sel.Name != "WaitGroup" && s.Sel.Name != "Pool" && s.Sel.Name != "Map" {
+					if s.Sel.Name != "Mutex" && s.Sel.Name != "WaitGroup" && s.Sel.Name != "Pool" && s.Sel.Name != "Map" && s.Sel.Name != "Once" && s.Sel.Name != "RWMutex" {
 						die("%s uses sync.%s, for which there is no shim", pos(s.Pos()), s.Sel.Name)
 					}
 				}
